@@ -28,7 +28,8 @@ func init() {
 		Decided: "D1 Concatenate appends first then second to a list made in the call; D2 Merge starts from a copy of first and then sets, for every association of second in order, that association's key to that association's value; " +
 			"D3 Extract iterates the requested keys in order and stores a key only under a presence test that depends on the key and on the source catalog and not on the looked-up value; " +
 			"D4 operands are not mutated and results are fresh." +
-			" Also: a returned collection that starts as a copy starts as a copy of the first operand; the class functions keep no state; association cells of an operand are never stored into the result; when the result is assembled with make and copy the copies tile it (offsets = lengths of what precedes).",
+			" Also: a returned collection that starts as a copy starts as a copy of the first operand; the class functions keep no state; association cells of an operand are never stored into the result; when the result is assembled with make and copy the copies tile it (offsets = lengths of what precedes)." +
+			" Round 7: (C16) an iterator over GetValues(S) is advanced on every path through a loop over S.",
 		NotDecided: "nothing beyond the three laws' shape: that SetValue/AppendValues themselves do what they document is C03/C01.",
 		Run:        runC16,
 	})
